@@ -21,7 +21,9 @@ PROPS = {
     'C01': {
         'modules': ['OtterVerif.Props.C01', 'OtterVerif.Props.C03', 'OtterVerif.Props.C06', 'OtterVerif.Props.C07'],
         'engines': [seq(['mix', 'load', 'expiry', 'bound', 'persist', 'huge', 'deferred'], 420, 14000,
-                        any_fail)],
+                        any_fail),
+                    # key types whose == is not bit equality (floats, strings, structs/arrays/interfaces of them): the map is keyed by ==
+                    {'kind': 'unit', 'name': 'keys', 'hcmd': 'unit-keys', 'dcmd': 'keys', 'quick': 40, 'thorough': 2000, 'chunk': 10, 'args': []}],
     },
     'C03': {
         'modules': ['OtterVerif.Props.C03'],
@@ -184,6 +186,7 @@ PROPS['C15'] = {
     'modules': ['OtterVerif.Props.C15'],
     'engines': [conc('conclin', 'conc-lin', 240, 12000, 20, ['-target', 'table']), conc('conclin', 'conc-lin', 120, 6000, 20, ['-target', 'cache']),
                 conc('concresize', 'conc-resize', 120, 6000, 10),
+                {'kind': 'unit', 'name': 'keys', 'hcmd': 'unit-keys', 'dcmd': 'keys', 'quick': 40, 'thorough': 2000, 'chunk': 10, 'args': []},
                 seq(['mix', 'bound'], 120, 4000, any_fail)],
     'rule': LIN_RULE + RESIZE_RULE + '; SEQ drives the table through the cache with InitialCapacity 1..1000 (iteration = exactly the live entries, each once)',
     'trusted': CONC_TRUST + SEQ_TRUST[1:],
